@@ -889,6 +889,7 @@ func initLib() {
 		s := a[1].T
 		arr := tSelect(vc.heapGet(st.heap, vc.arrComp(types.Typ[types.Uint8])), mk("(sl-ref "+s.S+")", sortRef))
 		bts := vc.bytesOf(arr, mk("(sl-off "+s.S+")", vc.idxSort()), mk("(sl-len "+s.S+")", vc.idxSort()))
+		vc.needBeval = true
 		vc.storePlace(st, a[0].P, mk("(beval "+bts.S+")", sortInt))
 		return a[0]
 	}
@@ -1016,6 +1017,11 @@ func (vc *VC) preludeText() string {
 		b.WriteString("(declare-fun beval (Bytes) Int)\n(declare-fun beenc (Int) Bytes)\n")
 		b.WriteString("(assert (forall ((x Bytes)) (! (>= (beval x) 0) :pattern ((beval x)))))\n")
 		b.WriteString("(assert (forall ((n Int)) (! (=> (>= n 0) (= (beval (beenc n)) n)) :pattern ((beenc n)))))\n")
+		if vc.needBeval {
+			// the empty byte string: whatever array it is read from; its value is 0
+			b.WriteString("(assert (forall ((a (Array " + is + " " + vc.intSort(8).Name + ")) (o " + is + ")) (! (= (bytes-of a o " + vc.idxLit(0).S + ") bytes-nil) :pattern ((bytes-of a o " + vc.idxLit(0).S + ")))))\n")
+			b.WriteString("(assert (= (beval bytes-nil) 0))\n")
+		}
 	}
 	if vc.needStr {
 		b.WriteString("(declare-sort Str 0)\n")
